@@ -99,6 +99,11 @@ type Op struct {
 	CondTree   *Cond `json:"condTree,omitempty"`
 	KeyTree    *Cond `json:"keyTree,omitempty"`
 	BadKeyCond string `json:"badKeyCond,omitempty"` // class of a condition that is no key condition
+	// texts that are no sentences of the grammar (taken from garbageExprs): the request must be rejected
+	GarbageKey    bool `json:"garbageKey,omitempty"`
+	GarbageFilter bool `json:"garbageFilter,omitempty"`
+	GarbageCond   bool `json:"garbageCond,omitempty"`
+	GarbageUpdate bool `json:"garbageUpdate,omitempty"`
 	FilterTree *Cond `json:"filterTree,omitempty"`
 
 	// not on the wire: placeholders as Go maps
